@@ -279,6 +279,7 @@ def kernels(tier):
     for via in ("build", "switch_register"):
         ks.append(("copy", dict(device="virt_maxseq", via=via)))
     ks += [("l1", s) for s in l1.step_shapes(tier)]
+    ks += [("l1", s) for s in l1.eom_shapes(tier)]
     return ks
 
 
